@@ -34,7 +34,7 @@ def cases(tier, seed):
 
 
 TARGET_NAMES = ["partitions_source", "partitions_last", "partitions_elemwise", "fusedio_projection", "fusedio_projection2", "set_index", "set_index_sorted",
-                "set_index_npart", "set_index_divisions", "sort_values", "index_join", "index_join_outer", "concat0", "concat0_overlap", "concat1", "loc_slice",
+                "set_index_npart", "set_index_divisions", "sort_values", "index_join", "index_join_outer", "concat0", "concat0_overlap", "concat0_touching", "concat0_touching3", "concat0_adjacent", "concat1", "loc_slice",
                 "loc_slice_open", "loc_list", "loc_elem", "shift_freq", "shift_rows", "rename_index_sorted", "head", "head_np2", "tail", "repartition_div",
                 "repartition_n_fewer", "repartition_n_more", "repartition_dup_more", "repartition_freq", "map_index", "to_timestamp_like", "cumsum", "rolling",
                 "groupby_cumsum", "from_array", "from_array_parts", "str_index", "float_index_setidx", "dt_index_resample_like",
